@@ -1,8 +1,124 @@
 (* C04 — exported theorems only: each is closed by [exact] and followed by Print Assumptions. *)
 From Coq Require Import List ZArith Bool.
-From Verif Require Import C04.Model C04.Spec C04.Proofs.
+From Verif Require Import Lib.Interleave.
+From Verif Require Import C04.Model C04.Spec C04.Proofs C04.Proofs_state C04.Proofs_main C04.Proofs_more.
+Import ListNotations.
 Open Scope Z_scope.
 
-Theorem c04_mem_spec : forall x l, memZ x l = true <-> In x l.
-Proof. exact memZ_In. Qed.
-Print Assumptions c04_mem_spec.
+(* MAIN: for every case header and every finite history of pod / PodGroup events, Permit,
+   Unreserve, PostBind and AfterPostFilter calls (any order, any interleaving of entry points),
+   the decision procedure that the check runs on the implementation's observations accepts the
+   model's observations ([run] and [prop_code] are exactly what Extract.v executes). *)
+Theorem c04_main : forall h ops, prop_code h ops (run h ops) = 0.
+Proof. exact prop_code_run. Qed.
+Print Assumptions c04_main.
+
+(* the decision procedure is sound for the property written as Props *)
+Theorem c04_prop_code_sound : forall h ops l, prop_code h ops l = 0 -> C04_holds h ops l.
+Proof. exact prop_code_sound. Qed.
+Print Assumptions c04_prop_code_sound.
+
+Theorem c04_holds : forall h ops, C04_holds h ops (run h ops).
+Proof. exact C04_holds_run. Qed.
+Print Assumptions c04_holds.
+
+(* membership partition: after every prefix of every history in which no Permit is issued for a
+   pod the cache holds as bound, every child of every gang is in exactly one of pending / waiting /
+   bound (and the sets are duplicate free, pending pods are children) *)
+Theorem c04_partition : forall h ops pre suf,
+  conformant h init_state ops -> ops = pre ++ suf ->
+  forall g x, get_gang (exec h init_state pre) g = Some x ->
+    gpart x /\
+    forall p, In p (g_children x) ->
+      (In p (g_pending x) /\ ~ In p (g_waiting x) /\ ~ In p (g_bound x))
+      \/ (~ In p (g_pending x) /\ In p (g_waiting x) /\ ~ In p (g_bound x))
+      \/ (~ In p (g_pending x) /\ ~ In p (g_waiting x) /\ In p (g_bound x)).
+Proof. exact partition_every_prefix. Qed.
+Print Assumptions c04_partition.
+
+(* one step, any state (reachable or not) *)
+Theorem c04_partition_step : forall h s o,
+  all_part s -> permit_ok h s o = true -> all_part (fst (step h s o)).
+Proof. exact all_part_step. Qed.
+Print Assumptions c04_partition_step.
+
+(* all interleavings of the lock-protected sections of gang.go on one gang object, by any number
+   of goroutines: no pod is ever in two of the sets, pending pods are children, no duplicates *)
+Theorem c04_partition_sections : forall (ts : list (list sec)) (l : list sec) (x0 : gang),
+  interleaving ts l -> gwpart x0 ->
+  forall pre suf, l = pre ++ suf ->
+    snd (Interleave.exec sec_step (x0, false) pre) = false ->
+    gwpart (fst (Interleave.exec sec_step (x0, false) pre)).
+Proof. exact sections_interleaving. Qed.
+Print Assumptions c04_partition_sections.
+
+(* Permit returns Success exactly when every gang of the pod's group exists and has its minimum
+   number of members holding resources; otherwise it returns Wait (any state) *)
+Theorem c04_release_only_when_satisfied : forall h s p s' r,
+  step h s (Permit p) = (s', r) ->
+  forall x, get_gang s' (gang_of h p) = Some x -> gang_of h p <> 0 ->
+  (o_res r = res_success <-> group_valid (view s') (v_group (gview_of s' x)))
+  /\ (o_res r = res_success \/ o_res r = res_wait).
+Proof. exact release_iff_group_valid. Qed.
+Print Assumptions c04_release_only_when_satisfied.
+
+(* a waiting pod is allowed only by a Permit that returns Success *)
+Theorem c04_allow_only_on_success : forall h s o s' r,
+  step h s o = (s', r) -> o_allowed r <> [] -> exists p, o = Permit p /\ o_res r = res_success.
+Proof. exact allow_only_on_success. Qed.
+Print Assumptions c04_allow_only_on_success.
+
+Theorem c04_allow_all : forall h s p s' r,
+  step h s (Permit p) = (s', r) -> o_res r = res_success ->
+  exists x, get_gang s' (gang_of h p) = Some x /\
+    forall q, In q (st_fw s) -> In (gang_of h q) (g_group x) -> In q (o_allowed r) /\ ~ In q (st_fw s').
+Proof. exact allow_all_on_success. Qed.
+Print Assumptions c04_allow_all.
+
+Theorem c04_strict_reject : forall h s o p s' r,
+  (o = Unreserve p \/ o = AfterPostFilter p) ->
+  step h s o = (s', r) ->
+  forall x, get_gang s' (gang_of h p) = Some x -> gang_of h p <> 0 ->
+  g_strict x = true -> ~ (g_policy x = pol_once_satisfied /\ gang_sat s' x = true) ->
+  forall q, q <> p \/ o = AfterPostFilter p -> In q (st_fw s) -> In (gang_of h q) (g_group x) ->
+    In q (o_rejected r) /\ ~ In q (st_fw s').
+Proof. exact strict_reject_all. Qed.
+Print Assumptions c04_strict_reject.
+
+(* the once-satisfied flag of a group info object is irreversible and only set by a bind *)
+Theorem c04_once_satisfied_only_by_bind : forall h s o r,
+  (sat_at s r = true -> sat_at (fst (step h s o)) r = true)
+  /\ (sat_at s r = false -> sat_at (fst (step h s o)) r = true -> binds o).
+Proof. exact once_satisfied_only_by_bind. Qed.
+Print Assumptions c04_once_satisfied_only_by_bind.
+
+(* limits, as theorems: the partition sentence without the protocol guard is false of the model *)
+Theorem c04_partition_unguarded_refuted :
+  exists h ops, ~ all_partition_ok (view (exec h init_state ops)).
+Proof. exact partition_unguarded_refuted. Qed.
+Print Assumptions c04_partition_unguarded_refuted.
+
+(* ... and a deletion between two of Permit's per-gang checks lets it return Success although the
+   group no longer qualifies (sections of Permit are not atomic together) *)
+Theorem c04_permit_toctou_example :
+  let s := exec ex_hdr init_state [PodAdd 0 false; PodAdd 1 false; Permit 0] in
+  let s1 := upd_gang s 2 (g_add_assumed 1) in
+  let check (st : state) (g : Z) := match get_gang st g with Some y => gang_valid st y | None => false end in
+  let s2 := pod_delete ex_hdr s1 0 in
+  check s1 1 = true /\ check s2 2 = true /\ all_valid s2 [1; 2] = false.
+Proof. exact permit_toctou. Qed.
+Print Assumptions c04_permit_toctou_example.
+
+(* non-vacuity *)
+Example c04_release_example :
+  let ops := [PodAdd 0 false; PodAdd 1 false; Permit 0; Permit 1] in
+  conformant ex_hdr init_state ops
+  /\ map (fun o => (o_res (fst o), o_allowed (fst o))) (run ex_hdr ops)
+     = [(0, []); (0, []); (res_wait, []); (res_success, [0])].
+Proof. exact release_example. Qed.
+
+Example c04_strict_reject_example :
+  let ops := [PodAdd 0 false; PodAdd 1 false; PodAdd 2 false; Permit 0; Permit 1; Unreserve 1] in
+  map (fun o => (o_res (fst o), o_rejected (fst o))) (run ex3_hdr ops)
+  = [(0, []); (0, []); (0, []); (res_wait, []); (res_wait, []); (0, [0])].
+Proof. exact strict_reject_example. Qed.
